@@ -17,6 +17,8 @@ NoDirs == {<<>>}
 DirsLit == {<<>>, <<Dir("skip", Lit("bool", TRUE))>>, <<Dir("include", Lit("bool", FALSE))>>,
             <<Dir("skip", Lit("bool", FALSE)), Dir("include", Lit("bool", TRUE))>>}
 DirsVar == {<<>>, <<Dir("skip", Lit("var", "v"))>>, <<Dir("include", Lit("var", "w"))>>}
+DirsBoth == DirsLit \cup DirsVar
+DirsVarOnly == {<<>>, <<Dir("skip", Lit("var", "v"))>>}
 VarTypesStd == [ v |-> [type |-> <<"NN", "Boolean">>, hasDefault |-> FALSE, default |-> NoLit],
                  w |-> [type |-> <<"Boolean">>, hasDefault |-> TRUE, default |-> Lit("bool", TRUE)],
                  n |-> [type |-> <<"Int">>, hasDefault |-> FALSE, default |-> NoLit],
@@ -37,6 +39,9 @@ AlphaAbstract == AlphaOf([Query |-> {"p", "lp", "u"}, P |-> {"s", "__typename"},
 AlphaLists == AlphaOf([Query |-> {"lo", "lnn", "nl", "ll", "le", "ls"}, T |-> {"s", "lo", "e"}])
 AlphaArgs == AlphaOf([Query |-> {"f", "g", "o"}, T |-> {"f", "g"}])
 AlphaFrag == AlphaOf([Query |-> {"o", "p"}, T |-> {"s", "o"}, P |-> {"s"}, A |-> {"a"}, B |-> {"b"}])
+AlphaDirs == AlphaOf([Query |-> {"o", "s"}, T |-> {"s"}])
+AlphaOps == AlphaOf([Query |-> {"o", "s"}, Mutation |-> {"m1", "m3"}, T |-> {"s"}])
+AlphaFragQ == AlphaOf([Query |-> {"o", "s"}, T |-> {"s"}])
 AlphaMut == AlphaOf([Mutation |-> {"m1", "m3", "ml"}, T |-> {"s", "o"}])
 
 \* ---- pick phase ------------------------------------------------------------------
